@@ -112,6 +112,67 @@ class Check:
                 self.inconclusive.append(name)
         return r, m
 
+    def prove_many(self, jobs, timeout_ms=30000, engine='z3', workers=None):
+        """discharge many independent obligations in parallel (forked workers; the solver state is
+        inherited copy-on-write).  jobs: list of dicts {name, constraints, family, sample}.
+        Returns the list of statuses; 'sat'/'unknown' jobs are re-run in this process by prove()
+        so that models are available: returns [(status, model)]."""
+        import os as _os
+        import json as _json
+        from . import smt
+        n = len(jobs)
+        if n == 0:
+            return []
+        W = workers or int(_os.environ.get('VERIF_JOBS', '12'))
+        W = max(1, min(W, n))
+        results = [None] * n
+        if W == 1 or n < 4:
+            return [self.prove(j['name'], j['constraints'], timeout_ms, j.get('family'), j.get('sample'),
+                               engine=engine) for j in jobs]
+        pipes = []
+        sys.stdout.flush()
+        for w in range(W):
+            r_, w_ = _os.pipe()
+            pid = _os.fork()
+            if pid == 0:
+                _os.close(r_)
+                out = []
+                try:
+                    for i in range(w, n, W):
+                        st, m, dt = smt.check(jobs[i]['constraints'], timeout_ms, engine)
+                        out.append([i, st, dt])
+                except BaseException as e:      # noqa
+                    out.append([-1, 'error: %r' % (e,), 0])
+                with _os.fdopen(w_, 'w') as f:
+                    f.write(_json.dumps(out))
+                _os._exit(0)
+            _os.close(w_)
+            pipes.append((pid, r_))
+        for pid, r_ in pipes:
+            with _os.fdopen(r_) as f:
+                data = f.read()
+            _os.waitpid(pid, 0)
+            try:
+                for i, st, dt in _json.loads(data or '[]'):
+                    if i >= 0:
+                        results[i] = (st, dt)
+            except ValueError:
+                pass
+        out = []
+        for j, res in zip(jobs, results):
+            if res is not None and res[0] == 'unsat':
+                self.note_formula(j['constraints'])
+                self.solver_s += res[1]
+                self.queries += 1
+                self.counts['unsat'] += 1
+                self.record(j['name'], 'discharged', family=j.get('family'),
+                            sample=j.get('sample') or {'obligation': j['name'], 'result': 'unsat'})
+                out.append(('unsat', None))
+            else:
+                out.append(self.prove(j['name'], j['constraints'], timeout_ms, j.get('family'), j.get('sample'),
+                                      engine=engine))
+        return out
+
     def witness(self, name, constraints, timeout_ms=30000, engine='z3'):
         """vacuity twin: constraints must be satisfiable"""
         self.witness_total += 1
